@@ -115,7 +115,7 @@ def run_book(case):
 
 
 def _run_book(orc, tick, trading, t0, ops):
-    b = bourse.core.OrderBook(t0, tick, trading)
+    b = common.Guarded(bourse.core.OrderBook(t0, tick, trading), "C18", "OrderBook")
     orc.call("book_new", start=t0, tick=tick, trading=trading)
     now = t0
     feat = {"trades": 0, "cancel_or_modify": 0, "asym": 0, "errors": 0, "roundtrips": 0, "calls": 0}
@@ -249,7 +249,7 @@ def _run_book(orc, tick, trading, t0, ops):
                         raise Violation("C18 snapshot written from Python does not load in Rust", "step %d: %r" % (step, r))
                 else:
                     r = orc.call("book_save", path=path, pretty=pretty)
-                    b = bourse.core.order_book_from_json(path)
+                    b = common.Guarded(bourse.core.order_book_from_json(path), "C18", "OrderBook")
                 feat["roundtrips"] += 1
             finally:
                 if os.path.exists(path):
@@ -260,7 +260,15 @@ def _run_book(orc, tick, trading, t0, ops):
 
 
 def price_st(tick):
-    return st.one_of(st.integers(8, 14).map(lambda k: k * tick), st.integers(1, (MAXU32 - 1) // tick).map(lambda k: k * tick))
+    # any in-range price argument: the dense band, the whole grid, and the two ends of the range (0 and 2^32-1 are
+    # in-range integers; whatever the core makes of them, the Python class must make the same)
+    ends = st.sampled_from([0, tick, ((MAXU32 - 1) // tick) * tick, MAXU32 - (MAXU32 % tick)])
+    return st.one_of(st.integers(8, 14).map(lambda k: k * tick), st.integers(1, (MAXU32 - 1) // tick).map(lambda k: k * tick), ends)
+
+
+def vol_st(hi):
+    # any in-range volume argument, including 0 (accepted by the core) and large values
+    return st.one_of(st.integers(1, hi), st.integers(1, hi), st.integers(1, hi), st.integers(1, hi), st.sampled_from([0, 0, 2**20, 2**28]))
 
 
 def book_case_st():
@@ -269,13 +277,13 @@ def book_case_st():
         tight_price = st.integers(10, 12).map(lambda k: k * tick)
         off_price = st.integers(8, 14).map(lambda k: k * tick + 1) if tick > 1 else good_price
         op = st.one_of(
-            st.tuples(st.just("place"), st.booleans(), st.integers(1, 12), st.integers(0, 9), st.one_of(st.none(), good_price, good_price, good_price, off_price, price_st(tick))),
+            st.tuples(st.just("place"), st.booleans(), vol_st(12), st.one_of(st.integers(0, 9), st.integers(0, MAXU32)), st.one_of(st.none(), good_price, good_price, good_price, off_price, price_st(tick))),
             st.tuples(st.just("place"), st.booleans(), st.integers(1, 12), st.integers(0, 9), good_price),
             st.tuples(st.just("place"), st.booleans(), st.integers(1, 6), st.integers(0, 9), st.one_of(st.none(), tight_price)),
             st.tuples(st.just("cancel"), st.integers(0, 65535)),
-            st.tuples(st.just("modify"), st.integers(0, 65535), st.one_of(st.none(), good_price, tight_price), st.one_of(st.none(), st.integers(1, 14))),
+            st.tuples(st.just("modify"), st.integers(0, 65535), st.one_of(st.none(), good_price, tight_price, price_st(tick)), st.one_of(st.none(), st.integers(1, 14), vol_st(14))),
             st.tuples(st.just("modify_cur"), st.integers(0, 65535), st.integers(0, 2)),
-            st.tuples(st.just("set_time"), st.integers(0, 50)),
+            st.tuples(st.just("set_time"), st.one_of(st.integers(0, 50), st.integers(0, 50), st.integers(0, 2**40))),
             st.tuples(st.sampled_from(["enable", "disable"])),
             st.tuples(st.just("place_bad"), st.sampled_from(["vol", "trader", "price"]), st.sampled_from([-1, 2**32, 2**64, -(2**63)])),
             st.tuples(st.just("time_bad"), st.sampled_from([-1, 2**64])),
@@ -301,8 +309,8 @@ def run_env(case):
 
 def _run_env(orc, case):
     seed, tick, t0, step_size, trading, ops = case["seed"], case["tick"], case["t0"], case["step_size"], case["trading"], case["ops"]
-    e = bourse.core.StepEnv(seed, t0, tick, step_size, trading)
-    e2 = bourse.core.StepEnv(seed, t0, tick, step_size, trading)  # determinism: same seed, same calls
+    e = common.Guarded(bourse.core.StepEnv(seed, t0, tick, step_size, trading), "C18", "StepEnv")
+    e2 = common.Guarded(bourse.core.StepEnv(seed, t0, tick, step_size, trading), "C18", "StepEnv")  # determinism: same seed, same calls
     orc.call("env_new", seed=seed, start=t0, tick=tick, step=step_size, trading=trading)
     feat = {"trades": 0, "cancel_or_modify": 0, "asym": 0, "errors": 0, "steps": 0, "calls": 0}
 
@@ -390,6 +398,29 @@ def _run_env(orc, case):
                     x.modify_order(oid, new_price=price, new_vol=vol)
             orc.call("env_modify", id=oid, price=price, vol=vol)
             feat["cancel_or_modify"] += 1
+        elif kind in ("cancel_next", "modify_next"):
+            # an instruction for the order that the NEXT placement creates: the core only queues the id and looks
+            # it up when the step processes it, so instruction and placement may be submitted in either order
+            _, bid, vol, trader, price, mprice, mvol = op
+            oid = len(before["orders"])
+            for x in (e, e2):
+                if kind == "cancel_next":
+                    x.cancel_order(oid)
+                elif mprice is None:
+                    x.modify_order(oid, new_vol=mvol)
+                else:
+                    x.modify_order(oid, new_price=mprice, new_vol=mvol)
+            if kind == "cancel_next":
+                orc.call("env_cancel", id=oid)
+            else:
+                orc.call("env_modify", id=oid, price=mprice, vol=mvol)
+            r = orc.call("env_place", bid=bid, vol=vol, trader=trader, price=price)
+            pid = e.place_order(bid, vol, trader, price=price)
+            e2.place_order(bid, vol, trader, price=price)
+            if not r["ok"] or pid != r["id"] or pid != oid:
+                raise Violation("C18 returned order id differs from the Rust core", "step %d %r: python %r, core %r, expected %r" % (step, op, pid, r, oid))
+            feat["cancel_or_modify"] += 1
+            feat["future_id"] = feat.get("future_id", 0) + 1
         elif kind == "modify_cur":
             active = [o for o in before["orders"] if o[1] == 1]
             if not active:
@@ -423,7 +454,7 @@ def _run_env(orc, case):
             feat["steps"] += 1
         compare(step, op)
     nontrivial = feat["trades"] >= 1 and feat["cancel_or_modify"] >= 1 and feat["asym"] >= 1
-    return nontrivial, {"env_sequences": 1, "env_calls": feat["calls"], "env_steps": feat["steps"], "env_trades": feat["trades"], "env_error_paths": feat["errors"], "env_asymmetric_states": feat["asym"]}
+    return nontrivial, {"env_sequences": 1, "env_calls": feat["calls"], "env_steps": feat["steps"], "env_trades": feat["trades"], "env_error_paths": feat["errors"], "env_asymmetric_states": feat["asym"], "env_instructions_for_the_next_created_order": feat.get("future_id", 0)}
 
 
 def env_case_st():
@@ -438,6 +469,7 @@ def env_case_st():
             st.tuples(st.just("cancel"), st.integers(0, 65535)),
             st.tuples(st.just("modify"), st.integers(0, 65535), st.one_of(st.none(), good_price, tight_price), st.one_of(st.none(), st.integers(1, 14))),
             st.tuples(st.just("modify_cur"), st.integers(0, 65535), st.integers(0, 2)),
+            st.tuples(st.sampled_from(["cancel_next", "modify_next"]), st.booleans(), st.integers(1, 12), st.integers(0, 9), good_price, st.one_of(st.none(), tight_price), st.integers(1, 14)),
             st.tuples(st.just("step")),
             st.tuples(st.just("step")),
             st.tuples(st.sampled_from(["enable", "disable"])),
@@ -468,7 +500,7 @@ RULE = (
 
 ASSUMPTIONS = [
     "the compiled extension is built from /repo's working tree by bin/pybuild (cargo build -p bourse, debug profile) and imported under python3-vt with numpy 2.4.6",
-    "ids passed to cancel / modify / order_status always exist (a non-existent id makes the Rust core panic, which is outside the valid domain)",
+    "ids passed to cancel / modify / order_status exist when the call is made, or (StepEnv cancel / modify) are created before the next step - the core looks a queued id up only when the step processes it; an id that never exists makes the Rust core panic, which is outside the valid domain",
     "trusted base: the oracle server (thin JSON wrapper over the public Rust API), Hypothesis 6.168",
 ]
 
@@ -479,7 +511,7 @@ def replay_runner(part, case):
 
 def main(tier):
     q = tier == "quick"
-    parts = [("orderbook-call-sequences", 600 if q else 6000, book_case_st(), run_book), ("stepenv-call-sequences", 400 if q else 4000, env_case_st(), run_env)]
+    parts = [("orderbook-call-sequences", 5000 if q else 60000, book_case_st(), run_book), ("stepenv-call-sequences", 3500 if q else 40000, env_case_st(), run_env)]
     return common.run_parts("C18", tier, parts, RULE, ASSUMPTIONS, replay_runner)
 
 
